@@ -30,6 +30,20 @@ def to_sparse(dense, pattern, fmt):
         return m.tocsc()
     if fmt in ("dia", "lil", "dok", "bsr"):
         return m.asformat(fmt)
+    if fmt in ("csr_dup", "csc_dup"):
+        # compressed storage with repeated stored entries for one position (a matrix assembled term by term): every entry as two halves
+        order = np.lexsort((cols, rows)) if fmt == "csr_dup" else np.lexsort((rows, cols))
+        r, c, v = rows[order], cols[order], vals[order]
+        major = r if fmt == "csr_dup" else c
+        minor = c if fmt == "csr_dup" else r
+        nmaj = shape[0] if fmt == "csr_dup" else shape[1]
+        data = np.repeat(0.5 * v, 2)
+        indices = np.repeat(minor, 2)
+        indptr = np.zeros(nmaj + 1, dtype=int)
+        np.add.at(indptr, major + 1, 2)
+        indptr = np.cumsum(indptr)
+        cls = sps.csr_matrix if fmt == "csr_dup" else sps.csc_matrix
+        return cls((data, indices, indptr), shape=shape)
     raise ValueError(fmt)
 
 
